@@ -106,25 +106,40 @@ namespace PugiXmlExtensions
 		return false;
 	}
 
+	/// <summary>
+	/// The character data of an element: the first text child as it is (no copy), or, when a comment, a processing
+	/// instruction or a CDATA section splits it into several adjacent text children, all of them joined in `buffer`.
+	/// </summary>
+	inline const pugi::char_t* GetText(const pugi::xml_node& node, std::basic_string<pugi::char_t>& buffer)
+	{
+		const pugi::char_t* text = node.text().as_string(nullptr);
+		if (text == nullptr || node.type() != pugi::node_element) return text;
+		const auto isText = [](const pugi::xml_node& n) { return n.type() == pugi::node_pcdata || n.type() == pugi::node_cdata; };
+		auto next = node.text().data().next_sibling();
+		if (!isText(next)) return text;
+		for (buffer = text; isText(next); next = next.next_sibling()) buffer += next.value();
+		return buffer.c_str();
+	}
+
 	template <typename T, std::enable_if_t<std::is_arithmetic_v<T>, int> = 0>
-	bool LoadValue(const pugi::xml_node& node, T& value, const SerializationOptions& serializationOptions)
+	bool LoadValue(const pugi::xml_node& node, T& value, const SerializationOptions& serializationOptions, std::basic_string<pugi::char_t>& buffer)
 	{
 		// Empty node is treated as Null
-		if (const pugi::char_t* strValue = node.text().as_string(nullptr))
+		if (const pugi::char_t* strValue = GetText(node, buffer))
 		{
 			return LoadValueFromText(strValue, value, serializationOptions);
 		}
 		return false;
 	}
 
-	inline bool LoadValue(const pugi::xml_node& node, std::nullptr_t&, const SerializationOptions&) {
+	inline bool LoadValue(const pugi::xml_node& node, std::nullptr_t&, const SerializationOptions&, std::basic_string<pugi::char_t>&) {
 		return node.empty();
 	}
 
-	inline bool LoadValue(const pugi::xml_node& node, PugiXmlArchiveTraits::string_view_type& value, const SerializationOptions&)
+	inline bool LoadValue(const pugi::xml_node& node, PugiXmlArchiveTraits::string_view_type& value, const SerializationOptions&, std::basic_string<pugi::char_t>& buffer)
 	{
 		// Empty node is treated as Null
-		if (const pugi::char_t* strValue = node.text().as_string(nullptr))
+		if (const pugi::char_t* strValue = GetText(node, buffer))
 		{
 			value = strValue;
 			return true;
@@ -216,7 +231,7 @@ public:
 	{
 		if constexpr (TMode == SerializeMode::Load)
 		{
-			return PugiXmlExtensions::LoadValue(LoadNextItem(), value, this->GetOptions());
+			return PugiXmlExtensions::LoadValue(LoadNextItem(), value, this->GetOptions(), mTextBuffer);
 		}
 		else
 		{
@@ -287,6 +302,7 @@ protected:
 
 	pugi::xml_node mNode;
 	pugi::xml_node_iterator mValueIt;
+	std::basic_string<pugi::char_t> mTextBuffer;	// joined character data of the value last loaded (see GetText)
 };
 
 
@@ -424,7 +440,7 @@ public:
 			if (child.empty()) {
 				return false;
 			}
-			return PugiXmlExtensions::LoadValue(child, value, this->GetOptions());
+			return PugiXmlExtensions::LoadValue(child, value, this->GetOptions(), mTextBuffer);
 		}
 		else
 		{
@@ -488,6 +504,7 @@ public:
 
 protected:
 	pugi::xml_node mNode;
+	std::basic_string<pugi::char_t> mTextBuffer;	// joined character data of the value last loaded (see GetText)
 };
 
 
